@@ -1236,8 +1236,8 @@ fn rand_json(rng: &mut Prng, depth: usize) -> J {
     match rng.below(if depth == 0 { 8 } else { 10 }) {
         0 => J::Null,
         1 => J::Bool(rng.chance(1, 2)),
-        2 => J::U(*rng.pick(&[0u64, 1, 200, 404, 65535, 65536, u64::MAX])),
-        3 => J::I(*rng.pick(&[-1i64, -404, i64::MIN])),
+        2 => J::U(*rng.pick(&[0u64, 1, 9, 10, 200, 404, 65535, 65536, 9223372036854775807, 9223372036854775808, u64::MAX])),
+        3 => J::I(*rng.pick(&[-1i64, -10, -404, i64::MIN, i64::MIN + 1])),
         4 => J::F(serde_json::to_string(rng.pick(&[1.0f64, 0.5, 1e300, -0.0, 404.0, 18446744073709551616.0])).unwrap()),
         5 | 6 => J::S((*rng.pick(STRS)).to_string()),
         7 => {
@@ -1586,7 +1586,7 @@ fn noisy(rng: &mut Prng, j: &J, out: &mut String) {
 }
 
 const JUNK_STRS: &[&str] = &["\"\\ud800\"", "\"\\udc00\"", "\"a\\uD800b\"", "\"\\ud800\\u0041\"", "\"\\ud800\\ud800\\udc00\"", "\"\\ud83d\\ude00\"", "\"\\udbff\\udfff\"", "\"\\ud800\\n\"", "\"\\ud800\""];
-const EDIT_CHARS: &[&str] = &[",", ":", "{", "}", "[", "]", "\"", "\\", "0", "1", "-", ".", "e", "+", " ", "\n", "x", "null", "true", "\u{1}", "\u{7f}", "é", "\\u", "\\u00", "\\x", "//", "\u{feff}", "'", "1e999", "-0", "00", "0.", ".5", "1e", "[]", "{}", "\"\"", "\"k\":"];
+const EDIT_CHARS: &[&str] = &[",", ":", "{", "}", "[", "]", "\"", "\\", "0", "1", "-", ".", "e", "+", " ", "\n", "x", "null", "true", "\u{1}", "\u{7f}", "é", "\\u", "\\u00", "\\x", "//", "\u{feff}", "'", "1e999", "-0", "00", "0.", ".5", "1e", "18446744073709551616", "-9223372036854775809", "-9223372036854775808", "123456789012345678901234567890", "1E5", "2e-3", "0e0", "-", "1.0E+2", "٣", "[]", "{}", "\"\"", "\"k\":"];
 
 /// character-level edits of a document; returns the classes applied
 fn text_edits(rng: &mut Prng, text: &mut String, classes: &mut Vec<&'static str>) {
@@ -1623,7 +1623,7 @@ fn text_edits(rng: &mut Prng, text: &mut String, classes: &mut Vec<&'static str>
                 let braces: Vec<usize> = text.char_indices().filter(|(_, c)| *c == '{').map(|(i, _)| i + 1).collect();
                 if !braces.is_empty() {
                     let q = *rng.pick(&braces);
-                    let v = *rng.pick(&["\"\\ud800\"", "[\"\\udc00\"]", "{\"a\":[1,\"x\\uD800\\u0041\"]}", "\"\\ud83d\\ude00\"", "1e5", "[[[[\"\\udfff\"]]]]"]);
+                    let v = *rng.pick(&["\"\\ud800\"", "[\"\\udc00\"]", "{\"a\":[1,\"x\\uD800\\u0041\"]}", "\"\\ud83d\\ude00\"", "1e5", "[[[[\"\\udfff\"]]]]", "{\"\\ud800k\":1}", "[{\"a\":1,\"\\udc00\":{}}]", "{\"\\ud83d\\ude00\":[]}"]);
                     text.insert_str(q, &format!("\"zz\":{v},"));
                     classes.push("t-junk-unknown-key");
                 }
@@ -1783,6 +1783,18 @@ fn gen(args: &Args, emit: &mut dyn FnMut(Value)) {
             }
         }
         made += emit_text(&mut rng, emit, ty, &j, &["none"], &j);
+        if rng.chance(1, 3) {
+            // a document that has nothing to do with the types: the reader against serde_json's on arbitrary JSON
+            let r = rand_json(&mut rng, 3);
+            let mut text = String::new();
+            let mut classes: Vec<&'static str> = vec!["random-json"];
+            noisy(&mut rng, &r, &mut text);
+            if rng.chance(1, 2) {
+                text_edits(&mut rng, &mut text, &mut classes);
+            }
+            emit(json!({"k": "parse", "text": text, "mut": classes}));
+            made += 1;
+        }
         if !subs.is_empty() {
             for _ in 0..rng.range(1, 3) {
                 let (sty, sj) = rng.pick(&subs).clone();
